@@ -12,17 +12,58 @@ pub const CAP_PAYLOAD: usize = 384;
 pub const CAP_BINARY: usize = 119;
 pub const CAP_TEXT: usize = 20;
 
+/// Does the variable-length text that ends a type 12 / 14 message exceed the 20 characters the
+/// no-alloc build can hold? The decoder sees whole bytes, so the characters it reads are
+/// `(8 * len - header) / 6`: after a text of the full 20 characters the bits that pad the payload
+/// to whole bytes amount to one more, padding, character. The capacity is exceeded when more
+/// than 21 characters are there, or when the text - leading spaces, then trailing '@', then
+/// trailing spaces removed (C13) - is longer than 20.
+fn text_capacity_exceeded(raw: &[u8], header_bits: usize) -> bool {
+    let bits = (raw.len() * 8).saturating_sub(header_bits);
+    let n = bits / 6;
+    if n > CAP_TEXT + 1 {
+        return true;
+    }
+    let mut chars: Vec<u8> = Vec::with_capacity(n);
+    for i in 0..n {
+        let mut v = 0u8;
+        for b in 0..6 {
+            let pos = header_bits + i * 6 + b;
+            let bit = (raw[pos / 8] >> (7 - pos % 8)) & 1;
+            v = (v << 1) | bit;
+        }
+        chars.push(if v < 32 { v + 64 } else { v });
+    }
+    let start = chars.iter().position(|&c| c != b' ').unwrap_or(chars.len());
+    let mut end = chars.len();
+    while end > start && chars[end - 1] == b'@' {
+        end -= 1;
+    }
+    while end > start && chars[end - 1] == b' ' {
+        end -= 1;
+    }
+    end - start > CAP_TEXT
+}
+
 /// does decoding this (complete) payload exceed a fixed capacity of the no-alloc build?
 /// Returns the name of the capacity.
-pub fn decode_capacity_exceeded(payload: &[u8]) -> Option<&'static str> {
+pub fn decode_capacity_exceeded(payload: &[u8], fill: u8) -> Option<&'static str> {
     let ty = unarmor_char(*payload.first()?)?;
     let bytes = (payload.len() * 6 + 7) / 8;
     match ty {
         6 if bytes > 11 + CAP_BINARY => Some("binary data of type 6 > 119 bytes"),
         8 if bytes > 7 + CAP_BINARY => Some("binary data of type 8 > 119 bytes"),
         17 if bytes > 15 + CAP_BINARY => Some("correction data of type 17 > 119 bytes"),
-        12 if (bytes * 8).saturating_sub(72) / 6 > CAP_TEXT => Some("text of type 12 > 20 characters"),
-        14 if (bytes * 8).saturating_sub(40) / 6 > CAP_TEXT => Some("text of type 14 > 20 characters"),
+        12 | 14 => {
+            // (the real unarmor of the std build: what the decoder is given)
+            let raw = api_unarmor_raw(Build::Std, payload, fill as usize)?;
+            let (hdr, what) = if ty == 12 { (72, "text of type 12 > 20 characters") } else { (40, "text of type 14 > 20 characters") };
+            if text_capacity_exceeded(&raw, hdr) {
+                Some(what)
+            } else {
+                None
+            }
+        }
         _ => None,
     }
 }
@@ -38,8 +79,8 @@ pub fn raw_decode_capacity_exceeded(raw: &[u8]) -> bool {
         6 => bytes > 11 + CAP_BINARY,
         8 => bytes > 7 + CAP_BINARY,
         17 => bytes > 15 + CAP_BINARY,
-        12 => (bytes * 8).saturating_sub(72) / 6 > CAP_TEXT,
-        14 => (bytes * 8).saturating_sub(40) / 6 > CAP_TEXT,
+        12 => text_capacity_exceeded(raw, 72),
+        14 => text_capacity_exceeded(raw, 40),
         _ => false,
     }
 }
@@ -489,7 +530,7 @@ impl Prop for C18 {
                     } else if fragment && s.k != 1 && acc[n] + own_len > CAP_PAYLOAD {
                         Some("accumulated payload of the group > 384 bytes")
                     } else if complete && l.decode {
-                        decode_capacity_exceeded(&s.data)
+                        decode_capacity_exceeded(&s.data, s.fill)
                     } else {
                         None
                     };
